@@ -27,6 +27,8 @@ class CallsMixin:
                          self._getattr_or_none(base.a[2], attr, env, node, fn))
         if k == "builtin":
             return T("builtin", base.a[0] + "." + attr)
+        if k == "crcobj" and attr == "crcValue":
+            return T("crc16v", base.a[1] if len(base.a) > 1 else bcat(), ty="int")
         if k == "class":
             return self.class_attr(base.a[0], attr, env, node, fn)
         if k == "const":
@@ -197,7 +199,7 @@ class CallsMixin:
         # in-place mutation of a local / attribute holding a byte string or list
         if isinstance(f, ast.Attribute) and f.attr in LIST_MUTATORS and isinstance(f.value, (ast.Name, ast.Attribute)):
             recv = self.ev(f.value, env, mod, fn)
-            if recv.k in ("bcat", "list", "listext", "dictlit") or recv.ty in ("bytes", "bytearray") \
+            if recv.k in ("bcat", "list", "listext", "dictlit", "crcobj") or recv.ty in ("bytes", "bytearray") \
                     or (isinstance(recv.ty, tuple) and recv.ty[0] == "list") or recv.ty in ("deque", "dict"):
                 args = [self.ev(a, env, mod, fn) for a in e.args]
                 new, ret = self.mutate(recv, f.attr, args, env, e)
@@ -224,6 +226,11 @@ class CallsMixin:
 
     def mutate(self, recv, meth, args, env, node):
         """-> (new value of the container or None, return value)"""
+        if recv.k == "crcobj":
+            if meth == "update":
+                sofar = recv.a[1] if len(recv.a) > 1 else bcat()
+                return T("crcobj", recv.a[0], bcat_concat(sofar, as_bcat(args[0]))), NONE
+            return None, T("call", "." + meth, (recv,) + tuple(args))
         if recv.k == "bcat" or recv.ty in ("bytes", "bytearray"):
             cur = as_bcat(recv)
             if meth == "append":
